@@ -9,6 +9,7 @@ import Mercure.Model.Retention
 import Mercure.Model.BoltStore
 import Mercure.Model.Template
 import Mercure.Model.Form
+import Mercure.Model.Claims
 import Mercure.Model.Sys
 import Mercure.Model.Timed
 import Mercure.Model.Config
@@ -377,6 +378,23 @@ def step (st : DSt) (line : String) : DSt × String :=
       match Json.parseStr v with
       | some (x, []) => (st, "=" ++ hex x)
       | _ => (st, "none")
+    | none => (st, "bad-op")
+  | ["claims.decode", p] =>
+    -- json.Unmarshal(payload, &claims{}) by the model's own JSON parser and store rules (Model/Claims)
+    match unhex p with
+    | some p =>
+      match ClaimsJson.decode p with
+      | none => (st, "invalid")
+      | some c =>
+        let optShow : Option (List Str) → String
+          | none => "~"
+          | some l => hexList l
+        let showM (m : ClaimsJson.M) : String := s!"{optShow m.publish}/{optShow m.subscribe}/{hex m.toClaim.payload}"
+        let showD : Option (Nat × Bool) → String
+          | none => "-"
+          | some (n, false) => toString n
+          | some (n, true) => s!"-{n}"
+        (st, s!"m={showM c.mercure} ns={match c.namespaced with | none => "~" | some m => showM m} exp={showD c.exp} nbf={showD c.nbf}")
     | none => (st, "bad-op")
   | ["tpl.valid", sel] =>
     match unhex sel with
